@@ -211,6 +211,15 @@ def replay_pair_table(target, nr, npots, derivs, labels, w, route="class", h=Non
           bad = ["[second write of the same object] " + b for b in cmp(out2.getvalue(), spec, cutoff, nr)]
         except Exception as e:  # noqa
           bad = ["[second write of the same object] writer raised %s: %s" % (type(e).__name__, e)]
+      if not bad and tab is not None:
+        # the same Potential objects in another tabulation object, on another grid
+        out3 = io.StringIO()
+        nr3, cut3 = nr + 4, cutoff * 1.5
+        try:
+          cls(pots, cut3, nr3).write(out3)
+          bad = ["[same Potential objects tabulated again with cutoff %r, nr %d] %s" % (cut3, nr3, b) for b in cmp(out3.getvalue(), spec, cut3, nr3)]
+        except Exception as e:  # noqa
+          bad = ["[same Potential objects tabulated again with cutoff %r, nr %d] writer raised %s: %s" % (cut3, nr3, type(e).__name__, e)]
     rec = dict(kind="pair_api", target=target, nr=nr, npots=npots, derivs=list(derivs), labels=labels,
                cutoff=cutoff, route=route, h=h, functions=what, mismatches=bad[:10])
     last = (bool(bad), ("[%s] " % what) + ("; ".join(bad[:4]) or "output agrees with the specification at cutoff=%r" % cutoff), rec)
